@@ -167,6 +167,15 @@ def r04_3(ctx):
                 if tot_acq == 1 and vers_ >= 1 and vals_ >= 1 and not pubs_:
                     ctx.holds("R04.3", f, "value+version-under-one-guard", where, "one acquisition in a private helper that hands the guard back; version and value are read through it")
                     continue
+            # pure delegation: no acquisition of its own, exactly one call of the sibling that returns value + marks under one guard
+            # (judged on its own), nothing else of the subscriber API
+            sib = [F.local_callee(main, t) for blk, t in b.calls() if F.local_callee(main, t) is not None
+                   and (root_fn(F, F.local_callee(main, t)).raw.get("self_ty") or "").startswith("subscriber::Subscriber<") and root_fn(F, F.local_callee(main, t)) is not f]
+            sib_roots = [root_fn(F, c) for c in sib]
+            sib_roots = list({r_.key: r_ for r_ in sib_roots}.values())
+            if not acq and len(sib_roots) == 1 and sib_roots[0].name in ("next_ref_now", "next_now") and sib_roots[0].vis == "pub":
+                ctx.holds("R04.3", f, "value+version-under-one-guard", where, "delegates to `%s`, which reads value and version under one guard" % sib_roots[0].name)
+                continue
             # count acquisitions in callees (get()/read()) too
             extra = [t for blk, t in b.calls() if F.local_callee(main, t) is not None and F.local_callee(main, t).name in ("get", "read", "next_ref_now", "next_now")]
             ctx.violated("R04.3", f, "value+version-under-one-guard", where,
